@@ -325,6 +325,8 @@ static void plan_to_shared(const hx_plan_t *p)
     if (SH.ndev < 1) SH.ndev = 1;
     if (SH.ndev > 3) SH.ndev = 3;
     if (hx_knob(p, "mode", 0) == 2 || hx_knob(p, "mode", 0) == 3) SH.ndev = 1;
+    /* modes 3/4 run one accelerator task at a time: more than 4 threads only add polling (AGAIN retries, idle selects) */
+    if (hx_knob(p, "mode", 0) >= 3 && SH.nthreads > 4) SH.nthreads = 2 + SH.nthreads % 3;
     int peer = (int)hx_knob(p, "peer", 1);
     int always_pushout = (int)hx_knob(p, "always_pushout", 0) || (SH.ndev > 1 && !peer);
     if (hx_knob(p, "mode", 0) == 3) always_pushout = 0;     /* the resident tile stays dirty on the device until its last writer */
@@ -369,6 +371,7 @@ static void plan_to_shared(const hx_plan_t *p)
      *     on the token) and a reservation never fails, while copies are evicted and staged in again all the time
      * In modes 1-4 all priorities are equal (a re-queued AGAIN task goes behind the ready ones). */
     int mode = (int)hx_knob(p, "mode", 0);
+    SH.flush_after_wait = (int)hx_knob(p, "flush_after_wait", mode ? 1 : 0);
     if (mode) for (int i = 0; i < n; i++) SH.tasks[i].priority = 0;
     if (mode == 1 || mode == 3 || mode == 4) {
         static dev_task_desc_t out[DEV_MAX_TASKS];
@@ -626,6 +629,20 @@ static void describe_abort(char *buf, size_t n)
         if (OBS[i].end) done++;
         else { if (OBS[i].count) running++; else if (OBS[i].submit) gpu_submitted++; if (first_missing < 0) first_missing = i; }
     }
+    /* an unfinished, not started task all of whose earlier conflicting tasks have finished is data-ready */
+    int starved = -1;
+    for (int i = 0; i < SH.ntasks && starved < 0; i++) {
+        dev_task_desc_t *d = &SH.tasks[i];
+        if (d->is_flush || OBS[i].count || OBS[i].submit) continue;
+        int ready = 1;
+        for (int j = 0; j < i && ready; j++) {
+            dev_task_desc_t *e = &SH.tasks[j];
+            if (e->is_flush || OBS[j].end) continue;
+            for (int a = 0; a < d->nparams && ready; a++) for (int b = 0; b < e->nparams; b++)
+                if (d->tile[a] == e->tile[b] && (writes(d->mode[a]) || writes(e->mode[b]))) { ready = 0; break; }
+        }
+        if (ready) starved = i;
+    }
     snprintf(buf, n, "%d of %d tasks done (%d in their body, %d kernels submitted but not completed); first unfinished task %d (%s); gate %s; %d device ops queued",
              done, total, running, gpu_submitted, first_missing, first_missing >= 0 ? (SH.tasks[first_missing].sel == SEL_CPU ? "cpu" : SH.tasks[first_missing].sel == SEL_GPU ? "gpu" : "any") : "-",
              GATE_OPEN ? "open" : "closed", simdev_pending());
@@ -637,6 +654,12 @@ static void describe_abort(char *buf, size_t n)
         char *tg = strstr(st, " [device-memory-full-of-dirty-copies");
         if (!tg) tg = strstr(st, " [lru-leak");
         if (!tg) tg = strstr(st, " [device-memory-exhausted");
+        if (!tg && strstr(st, " [devices-idle]") && starved >= 0 && l + 200 < n) {
+            /* nothing is in any device pipeline: the hang (or crawl) is on the host side of the runtime (DTD / scheduler) */
+            snprintf(buf + l, n - l, "; task %d (%s) is data-ready but was never started while every device is idle: ready-but-starved [devices-idle]", starved,
+                     SH.tasks[starved].sel == SEL_CPU ? "cpu" : "gpu");
+            tg = NULL;
+        }
         if (tg && l + 1 < n) snprintf(buf + l, n - l, "%s", tg);
     }
 }
@@ -644,7 +667,11 @@ static void describe_abort(char *buf, size_t n)
 static void tune(const hx_plan_t *p, sim_params_t *sp)
 {
     sp->quantum_ns = 20;
-    sp->max_steps = (uint64_t)hx_knob(p, "max_steps", 80000000);
+    /* 1-2 % of the runs make no progress until the fair round-robin tail starts (a PCT priority or a stall keeps the one
+     * thread that matters off the baton while the others poll); the serialised modes then need up to ~20 M more points.
+     * Tail after 40 M as everywhere else, but 80 M points of it instead of 40 M. */
+    sp->max_steps = (uint64_t)hx_knob(p, "max_steps", 120000000);
+    sp->tail_after = (uint64_t)hx_knob(p, "tail_after", 40000000);
 }
 
 static const hx_harness_t H = {
